@@ -6,6 +6,7 @@ package main
 import (
 	"fmt"
 	"os"
+	"runtime/pprof"
 	"sort"
 )
 
@@ -22,6 +23,14 @@ func main() {
 	f, ok := cmds[os.Args[1]]
 	if !ok {
 		usage()
+	}
+	if p := os.Getenv("VH_CPUPROFILE"); p != "" {
+		pf, _ := os.Create(p)
+		pprof.StartCPUProfile(pf)
+		rc := f(os.Args[2:])
+		pprof.StopCPUProfile()
+		pf.Close()
+		os.Exit(rc)
 	}
 	os.Exit(f(os.Args[2:]))
 }
